@@ -225,6 +225,11 @@ func genC02(t *rapid.T) C02Case {
 	case "setmantexp":
 		x := h.GenAny(t, "mant", 200)
 		x.Hist = ""
+		if rapid.Bool().Draw(t, "manthist") {
+			// the mantissa's own accuracy history (a zero from an underflow, an infinity from an overflow, a finite value
+			// reached through an inexact rounding) must not show in the result's accuracy (F-38)
+			x.Hist = "acc"
+		}
 		c.X = &x
 		c.P, c.M = x.P, x.M
 		switch rapid.IntRange(0, 4).Draw(t, "expcls") {
@@ -361,8 +366,10 @@ func c02Run(c C02Case, o *h.Obs) (got h.Snap, exact model.X, ok bool, fail *h.Fa
 		}
 		exact = model.X{Val: v}
 		if v.Form != model.Finite {
-			// Copy semantics for non-finite mantissas: accuracy not asserted (documented attribute copy)
-			return h.Read(z), exact, false, nil
+			o.Label("setmantexp:non-finite-mantissa")
+			if c.X.Hist == "acc" {
+				o.NonTrivial()
+			}
 		}
 	case "parse", "setstring", "unmarshaltext":
 		var err error
